@@ -111,9 +111,9 @@ ArrIArrVV = z3.ArraySort(I, ArrVV)        # dict.val
 
 
 def field_sort(name):
-    if name in ('list.items', 'dict.keys'):
+    if name in ('list.items', 'dict.keys', 'gen.items'):
         return ArrIArrIV
-    if name in ('list.len', 'dict.n', 'cls', 'gen.pos'):
+    if name in ('list.len', 'dict.n', 'cls', 'gen.pos', 'gen.n', 'gen.exc'):
         return ArrII
     if name in ('dict.has',):
         return ArrIArrVB
